@@ -185,6 +185,37 @@ fn resize_body<T: Cell, C: ArrayLength + PartialEq, const R0: usize, const R1: u
     core::mem::forget(c);
 }
 
+/// two resizes in a row: shrink (or grow) to R1, then to R2; rows that survive both
+/// keep their contents, every other row of the final matrix holds the default value
+fn resize2_body<T: Cell, C: ArrayLength + PartialEq, const R0: usize, const R1: usize, const R2: usize>() {
+    let (mut m, sh) = make::<T, C, R0>();
+    m.resize(R1);
+    assert!(m.rows() == R1);
+    m.resize(R2);
+    assert!(m.rows() == R2, "rows() must report the row count last requested");
+    layout(&m);
+    let keep = core::cmp::min(R0, core::cmp::min(R1, R2));
+    same(&m, &sh, keep);
+    for i in keep..R2 {
+        for j in 0..C::USIZE {
+            assert!(m[i][j] == T::default(), "row re-created by resize does not hold the default value");
+        }
+    }
+    // fill after the resizes reaches exactly the logical rows
+    let v = T::any();
+    m.fill(v);
+    let mut n = 0usize;
+    for row in m.iter() {
+        for j in 0..C::USIZE {
+            assert!(row[j] == v);
+        }
+        n += 1;
+    }
+    assert!(n == R2);
+    crate::witness!(R0 == 0 || sh[R0 - 1][0] != T::default(), "non-default content before the resizes");
+    core::mem::forget(m);
+}
+
 /// with_capacity + reserve do not change the logical content
 fn capacity_body<T: Cell, C: ArrayLength, const R0: usize, const CAP: usize>() {
     let mut m = DenseMatrix::<T, C>::with_capacity(R0, CAP);
@@ -224,6 +255,12 @@ harness!(none, 180, c19_i64_c7_r1_r3, ops_body::<i64, U7, 1, 3>());
 harness!(none, 180, c19_u8_c1_r0_r2, ops_body::<u8, U1, 0, 2>());
 //@ C19 quick 1800 DenseMatrix<f32, 16>: with_capacity(2, 5), reserve
 harness!(none, 180, c19_f32_c16_cap, capacity_body::<f32, U16, 2, 5>());
+//@ C19 quick 1800 DenseMatrix<u32, 5>: new(3), writes, resize(1), resize(4) (shrink, then grow past the previous maximum), fill
+harness!(none, 180, c19_u32_c5_r3_r1_r4, resize2_body::<u32, U5, 3, 1, 4>());
+//@ C19 quick 1800 DenseMatrix<u8, 16>: new(2), writes, resize(0), resize(3), fill
+harness!(none, 180, c19_u8_c16_r2_r0_r3, resize2_body::<u8, U16, 2, 0, 3>());
+//@ C19 thorough 5400 DenseMatrix<f32, 7>: new(2), writes, resize(3), resize(1), fill
+harness!(none, 180, c19_f32_c7_r2_r3_r1, resize2_body::<f32, U7, 2, 3, 1>());
 //@ C19 thorough 5400 DenseMatrix<u32, 43> (stride 48): new(2) ... resize(4)
 harness!(none, 180, c19_u32_c43_r2_r4, ops_body::<u32, U43, 2, 4>());
 //@ C19 thorough 5400 DenseMatrix<i64, 21> (stride 24): new(3) ... resize(2)
